@@ -58,7 +58,10 @@ impl<const BITS: usize, const LIMBS: usize> Uint<BITS, LIMBS> {
     #[inline]
     #[doc(alias = "randomize_using")]
     pub fn randomize_with<R: rand::RngCore + ?Sized>(&mut self, rng: &mut R) {
-        rng.fill(&mut self.limbs[..]);
+        // Fill a copy so that `self` is left untouched (and canonical) if `rng` panics.
+        let mut limbs = self.limbs;
+        rng.fill(&mut limbs[..]);
+        self.limbs = limbs;
         self.apply_mask();
     }
 }
